@@ -299,6 +299,39 @@ func VerifC05_EClean() {
 	case 5:
 		r = env.LoadLocation("prog", "/src/prog.lisp", stringsReader(progs[pi]))
 	}
+	// the same entry points with an explicit context, cancelled right after they return: the
+	// context belonged to THAT evaluation and must not be seen by any later one
+	if vndBool("withctx") {
+		ctx, cancel := context.WithCancel(context.Background())
+		env2 := newEnv(&probeState{}, lisp.WithMaxSteps(n))
+		lisp.WithMaxSteps(0)(env2)
+		env2.LoadString("defs", "(in-package 'other) (export 'noop 'lam 'viaempty 'failing) (defun noop ()) (defun lam () (lambda ())) (defun viaempty () (set 'w 1) (noop)) (defun failing () (noop) (error 'other-failed 1)) (in-package 'user)")
+		lisp.WithMaxSteps(n)(env2)
+		var rc *lisp.LVal
+		switch entry {
+		case 2:
+			exprs, _ := env2.Runtime.Reader.Read("prog", stringsReader("(progn "+progs[pi]+")"))
+			rc = env2.EvalContext(ctx, exprs[0])
+		case 3:
+			d := env2.LoadString("def", "(defun main-entry () "+progs[pi]+")")
+			vAssume(d.Type != lisp.LError)
+			rc = env2.FunCallContext(ctx, env2.GetFunGlobal(lisp.Symbol("main-entry")), lisp.Nil())
+		case 4:
+			rc = env2.LoadContext(ctx, "prog", stringsReader(progs[pi]))
+		default:
+			rc = env2.LoadStringContext(ctx, "prog", progs[pi])
+		}
+		vAssert(outcome(rc) == outcome(r), "an uncancelled context changes nothing: "+outcome(rc)+" / "+outcome(r))
+		cancel()
+		lisp.WithMaxSteps(0)(env2)
+		for _, later := range []string{"(+ 1 2)", "(if true 3 4)", "(progn 1 3)", "(let ((a 3)) a)", "(car (map 'list (lambda (e) (+ e 1)) '(2)))"} {
+			lr := env2.LoadString("later", later)
+			vAssert(lr.Type == lisp.LInt && lr.Int == 3, "the evaluation context is restored: a later context-less evaluation is not cancelled by the finished one's context; "+later+" gave "+outcome(lr))
+		}
+		ev := evalSrc(env2, "(if true 3 4)")
+		vAssert(ev.Type == lisp.LInt && ev.Int == 3, "nor is a later Eval")
+		vCover("ctx")
+	}
 	vObserve("prog", pi)
 	vObserve("outcome", outcome(r))
 	vAssert(!lisp.IsInternalPanic(r), "no host panic")
